@@ -329,8 +329,23 @@ def same_function(a, b, seed, kind):
     C, L = zoo.leaf_shape(a)
     g = torch.Generator().manual_seed(seed)
     x = torch.randn(3, 5, L, generator=g, dtype=torch.get_default_dtype())
+    # BOTH layers are called exactly the way the ORIGINAL layer is called (its batch_first layout, the very same
+    # tensor): a replacement that silently changed the layout convention must not be forgiven
+    bf = bool(a.batch_first)
+    xi = x if bf else x.transpose(0, 1).contiguous()
+
+    def call(m):
+        if kind == "LSTM":
+            return m(xi)[0]
+        return m(xi, xi[..., : a.kdim], xi[..., : a.vdim])[0]
+
     with torch.no_grad():
-        ya, yb = zoo.run_tree(a, x), zoo.run_tree(b, x)
+        try:
+            ya, yb = call(a), call(b)
+        except Exception:
+            return float("inf")
+    if tuple(ya.shape) != tuple(yb.shape):
+        return float("inf")
     return float((ya - yb).abs().max())
 
 
